@@ -53,7 +53,28 @@ func genC19Generated(o *hx.Out, r *rand.Rand) {
 		f.enums = append(f.enums, e)
 	}
 	f.msgs = []xMsg{{name: "C19_PROBE", id: 1, fields: []xField{{typ: "uint8_t", name: "x"}}}}
-	os.WriteFile(filepath.Join(gdir, f.addr), []byte(xmlOf(f)), 0o644) //nolint:errcheck
+	// an included definition whose enums (one bitmask, one ordinary) the including definition
+	// extends with further entries: the generated type holds the entries of both, in that order
+	base := xFile{addr: "c19_Base.xml", version: "3",
+		msgs: []xMsg{{name: "C19_BASE_PROBE", id: 2, fields: []xField{{typ: "uint8_t", name: "y"}}}},
+		enums: []xEnum{
+			{name: "EBASE_FLAGS", bitmask: true, entries: []xEntry{{"EBASE_FLAGS_A", "1"}, {"EBASE_FLAGS_B", "0x2"}, {"EBASE_FLAGS_C", "2**2"}}},
+			{name: "EBASE_KIND", entries: []xEntry{{"EBASE_KIND_ZERO", "0"}, {"EBASE_KIND_ONE", "1"}, {"EBASE_KIND_TWO", "2"}}},
+		}}
+	ext := []xEnum{
+		{name: "EBASE_FLAGS", bitmask: true, entries: []xEntry{{"EBASE_FLAGS_D", "8"}, {"EBASE_FLAGS_HIGH", "2**33"}}},
+		{name: "EBASE_KIND", entries: []xEntry{{"EBASE_KIND_TEN", "10"}, {"EBASE_KIND_BIG", "5000000000"}}},
+	}
+	f.includes = []string{base.addr}
+	own := len(f.enums)
+	f.enums = append(f.enums, ext...)
+	os.WriteFile(filepath.Join(gdir, base.addr), []byte(xmlOf(base)), 0o644) //nolint:errcheck
+	os.WriteFile(filepath.Join(gdir, f.addr), []byte(xmlOf(f)), 0o644)       //nolint:errcheck
+	f.enums = f.enums[:own]
+	for i, e := range ext {
+		e.entries = append(append([]xEntry(nil), base.enums[i].entries...), e.entries...)
+		f.enums = append(f.enums, e)
+	}
 	if err := convertIn(gdir, f.addr); err != nil {
 		o.Add("generated enums", "GENERATOR-FAILED "+err.Error(), "expect", "ok", "generated enums")
 		return
